@@ -11,6 +11,7 @@
 //! peer ops: o<sid> open; s<sid>:<hex> deliver chunk; f<sid> FIN; r<sid>:<code> RESET;
 //!   x<sid>:<code> STOP_SENDING; C<code> application close; T timeout;
 //!   gu<n> / gb<n> grant stream credit; gw<sid>:<n> grant write credit; cw<sid>:<n> set it
+//!   #<text> annotation for the model side, ignored here
 //! api ops: <task>.<cmd>  (tasks: conn, drv, snd, q<sid>, q<sid>s); `conn.U` / `drv.U` list and drain the
 //!   WebTransport uni streams accepted so far (`<session>:<hex>:<open|fin|rst<c>>,…`); <task>.kill drops
 //!   the task's future, <task>.kill? does the same but tolerates a task that does not exist (any more)
@@ -913,6 +914,11 @@ impl Run {
     }
 
     fn apply(&mut self, op: &str) -> bool {
+        // `#…` is an annotation for the Lean model (e.g. `#fs:<hex>`, the field section the next
+        // header-sending call is expected to produce); the real code does not look at it
+        if op.starts_with('#') {
+            return true;
+        }
         // two-endpoint runs: task names are `c.<task>` / `s.<task>`
         let split = if self.peer.is_some() && (op.starts_with("c.") || op.starts_with("s.")) {
             op[2..].split_once('.').map(|(t, c)| (&op[..2 + t.len()], c))
